@@ -487,35 +487,40 @@ Qed.
 (** * Output ids within one process lifetime
 
     [PStart] marks the start of a planning round (hook point cs).  The state carries
-    the planner's bookkeeping of the lifetime: [p_seen] (see [Compaction.seen_round_start],
-    [seen_batch]) and the index of the current round start, against which the batches
-    of the round are planned.  A crash or restart label ENDS the lifetime: [p_seen] is
-    reset to [[]] (the engine's set of remembered labels lives in process memory).
-    [p_ok] accumulates the guards of every non-crash step ([cstep_ok]) and, for every
-    [CWrite b], [batch_ok_fresh] w.r.t. the accumulated [p_seen]. *)
+    the planner's bookkeeping of the lifetime: [p_lab], the index labels at every
+    round start so far ([Compaction.seen_round_start]); [p_routs], the output ids
+    taken in the current round ([seen_batch]); and [p_rix], the index of the current
+    round start, against which the batches of the round are planned.  A crash or
+    restart label ENDS the lifetime: [p_lab] is reset to [[]] (the engine's set of
+    remembered labels lives in process memory).  [p_ok] accumulates the guards of
+    every non-crash step ([cstep_ok]) and, for every [CWrite b], [batch_ok_fresh]
+    w.r.t. [p_routs ++ p_lab]. *)
 Inductive plabel := PStart | PStep (c : clabel).
 
-Record pst := mkP { p_s : shard; p_seen : list N; p_rix : list (N * list N); p_ok : bool }.
+Record pst := mkP { p_s : shard; p_lab : list N; p_routs : list N; p_rix : list (N * list N); p_ok : bool }.
 
 Definition is_crash_c (c : clabel) : bool := match c with CBase x => is_crash x | _ => false end.
 
 Definition pstep (k : N) (p : pst) (l : plabel) : pst :=
   match l with
-  | PStart => mkP (p_s p) (seen_round_start (p_seen p) (index (p_s p))) (index (p_s p)) (p_ok p)
+  | PStart => mkP (p_s p) (seen_round_start (p_lab p) (index (p_s p))) [] (index (p_s p)) (p_ok p)
   | PStep c =>
-      if is_crash_c c then mkP (cstep (p_s p) c) [] [] (p_ok p)
+      if is_crash_c c then mkP (cstep (p_s p) c) [] [] [] (p_ok p)
       else match c with
-           | CWrite b => mkP (cstep (p_s p) c) (seen_batch (p_seen p) b) (p_rix p)
-                             (p_ok p && cstep_ok (p_s p) c && batch_ok_fresh (p_seen p) (p_rix p) k b)
-           | _ => mkP (cstep (p_s p) c) (p_seen p) (p_rix p) (p_ok p && cstep_ok (p_s p) c)
+           | CWrite b => mkP (cstep (p_s p) c) (p_lab p) (seen_batch (p_routs p) b) (p_rix p)
+                             (p_ok p && cstep_ok (p_s p) c && batch_ok_fresh (p_routs p ++ p_lab p) (p_rix p) k b)
+           | _ => mkP (cstep (p_s p) c) (p_lab p) (p_routs p) (p_rix p) (p_ok p && cstep_ok (p_s p) c)
            end
   end.
 
 Definition prun (k : N) (p : pst) (ls : list plabel) : pst := fold_left (pstep k) ls p.
-Definition pinit (c : N) : pst := mkP (init c) [] [] true.
+Definition pinit (c : N) : pst := mkP (init c) [] [] [] true.
 
+(** no crash / restart label: the history lies inside one lifetime *)
 Definition no_pcrash (ls : list plabel) : Prop :=
   forall c, In (PStep c) ls -> is_crash_c c = false.
+(** no round start: the history lies inside one planning round *)
+Definition no_pstart (ls : list plabel) : Prop := ~ In PStart ls.
 
 Lemma prun_app k p a b : prun k p (a ++ b) = prun k (prun k p a) b.
 Proof. unfold prun. apply fold_left_app. Qed.
@@ -549,20 +554,21 @@ Qed.
 Lemma pstep_inv k p l :
   p_ok (pstep k p l) = true ->
   match l with
-  | PStart => p_s (pstep k p l) = p_s p /\ p_seen (pstep k p l) = index_labels (index (p_s p)) ++ p_seen p
+  | PStart => p_s (pstep k p l) = p_s p /\ p_lab (pstep k p l) = index_labels (index (p_s p)) ++ p_lab p
+              /\ p_routs (pstep k p l) = []
   | PStep c =>
       is_crash_c c = false ->
-      p_s (pstep k p l) = cstep (p_s p) c /\ cstep_ok (p_s p) c = true /\
+      p_s (pstep k p l) = cstep (p_s p) c /\ cstep_ok (p_s p) c = true /\ p_lab (pstep k p l) = p_lab p /\
       match c with
-      | CWrite b => p_seen (pstep k p l) = b_out b :: p_seen p /\ ~ In (b_out b) (p_seen p)
+      | CWrite b => p_routs (pstep k p l) = b_out b :: p_routs p /\ ~ In (b_out b) (p_routs p ++ p_lab p)
                     /\ batch_ok (p_rix p) k b = true
-      | _ => p_seen (pstep k p l) = p_seen p
+      | _ => p_routs (pstep k p l) = p_routs p
       end
   end.
 Proof.
-  destruct l as [|c]; cbn [pstep]; [intros _; split; reflexivity|].
-  intros H Hc. rewrite Hc in *. destruct c as [x|b|b|b dr|dr]; cbn [p_ok p_s p_seen] in *;
-    try (apply andb_true_iff in H as [H G]; split; [reflexivity|]; split; [exact G | reflexivity]).
+  destruct l as [|c]; cbn [pstep]; [intros _; repeat split; reflexivity|].
+  intros H Hc. rewrite Hc in *. destruct c as [x|b|b|b dr|dr]; cbn [p_ok p_s p_lab p_routs] in *;
+    try (apply andb_true_iff in H as [H G]; split; [reflexivity|]; split; [exact G|]; split; reflexivity).
   apply andb_true_iff in H as [H F]. apply andb_true_iff in H as [H G].
   apply batch_ok_fresh_spec in F as [F1 F2]. repeat split; assumption.
 Qed.
@@ -574,59 +580,65 @@ Proof.
   - intros [H1 H2] c Hc. apply in_app_iff in Hc as [Hc|Hc]; auto.
 Qed.
 
-(** [p_seen] only grows inside a lifetime *)
-Lemma pstep_seen_mono k p l x :
-  p_ok (pstep k p l) = true -> (forall c, l = PStep c -> is_crash_c c = false) ->
-  In x (p_seen p) -> In x (p_seen (pstep k p l)).
-Proof.
-  intros H Hc Hx. pose proof (pstep_inv k p l H) as I. destruct l as [|c].
-  - destruct I as [_ E]. rewrite E. apply in_app_iff. right. exact Hx.
-  - destruct (I (Hc c eq_refl)) as (_ & _ & E). destruct c; try (rewrite E; exact Hx).
-    destruct E as [E _]. rewrite E. right. exact Hx.
-Qed.
+Lemma no_pstart_app a b : no_pstart (a ++ b) <-> no_pstart a /\ no_pstart b.
+Proof. unfold no_pstart. rewrite in_app_iff. tauto. Qed.
 
-Lemma prun_seen_mono k p ls x :
-  no_pcrash ls -> p_ok (prun k p ls) = true -> In x (p_seen p) -> In x (p_seen (prun k p ls)).
+(** [p_lab] only grows inside a lifetime, [p_routs] only grows inside a round *)
+Lemma prun_lab_mono k p ls x :
+  no_pcrash ls -> p_ok (prun k p ls) = true -> In x (p_lab p) -> In x (p_lab (prun k p ls)).
 Proof.
   induction ls as [|l ls IH] using rev_ind; intros Hc H Hx; [exact Hx|].
   apply no_pcrash_app in Hc as [Hc1 Hc2]. rewrite prun_snoc in *.
-  apply pstep_seen_mono; [exact H | | apply IH; [exact Hc1 | apply (pstep_ok _ _ _ H) | exact Hx]].
-  intros c ->. apply Hc2. left. reflexivity.
+  specialize (IH Hc1 (pstep_ok _ _ _ H) Hx). pose proof (pstep_inv _ _ _ H) as I. destruct l as [|c].
+  - destruct I as (_ & E & _). rewrite E. apply in_app_iff. right. exact IH.
+  - destruct (I (Hc2 c (or_introl eq_refl))) as (_ & _ & E & _). rewrite E. exact IH.
+Qed.
+
+Lemma prun_routs_mono k p ls x :
+  no_pcrash ls -> no_pstart ls -> p_ok (prun k p ls) = true -> In x (p_routs p) -> In x (p_routs (prun k p ls)).
+Proof.
+  induction ls as [|l ls IH] using rev_ind; intros Hc Hs H Hx; [exact Hx|].
+  apply no_pcrash_app in Hc as [Hc1 Hc2]. apply no_pstart_app in Hs as [Hs1 Hs2]. rewrite prun_snoc in *.
+  specialize (IH Hc1 Hs1 (pstep_ok _ _ _ H) Hx). pose proof (pstep_inv _ _ _ H) as I. destruct l as [|c].
+  - exfalso. apply Hs2. left. reflexivity.
+  - destruct (I (Hc2 c (or_introl eq_refl))) as (_ & _ & _ & E). destruct c; try (rewrite E; exact IH).
+    destruct E as [E _]. rewrite E. right. exact IH.
 Qed.
 
 (** Every output id is new: it differs from every label that was in the index at
-    any round start of the lifetime so far, from every output id taken before, and
-    from whatever [p_seen] held at the beginning. *)
+    any round start of the lifetime so far (and from the labels remembered at the
+    beginning), and from every output id taken earlier in the same round. *)
 Theorem ids_fresh_in_lifetime : forall k p ls,
   no_pcrash ls -> p_ok (prun k p ls) = true ->
   forall l1 b l2, ls = l1 ++ PStep (CWrite b) :: l2 ->
-    ~ In (b_out b) (p_seen p) /\
-    (forall b', In (PStep (CWrite b')) l1 -> b_out b' <> b_out b) /\
-    (forall a r, l1 = a ++ PStart :: r -> ~ In (b_out b) (index_labels (index (p_s (prun k p a))))).
+    ~ In (b_out b) (p_lab p) /\
+    (forall a r, l1 = a ++ PStart :: r -> ~ In (b_out b) (index_labels (index (p_s (prun k p a))))) /\
+    (forall a b' r, l1 = a ++ PStep (CWrite b') :: r -> no_pstart r -> b_out b' <> b_out b).
 Proof.
   intros k p ls Hc Hok l1 b l2 ->.
   change (l1 ++ PStep (CWrite b) :: l2) with (l1 ++ [PStep (CWrite b)] ++ l2) in *.
   rewrite app_assoc in Hok. apply prun_ok_prefix in Hok.
   apply no_pcrash_app in Hc as [Hc1 Hc2].
   rewrite prun_snoc in Hok. pose proof (pstep_inv _ _ _ Hok) as I. cbn beta iota in I.
-  destruct (I eq_refl) as (_ & _ & _ & Hfresh & _). apply pstep_ok in Hok.
+  destruct (I eq_refl) as (_ & _ & _ & _ & Hfresh & _). apply pstep_ok in Hok.
+  rewrite in_app_iff in Hfresh.
   split; [|split].
-  - intros Hx. apply Hfresh. apply prun_seen_mono; assumption.
-  - intros b' Hb' E. apply in_split in Hb' as (a & r & ->).
-    change (a ++ PStep (CWrite b') :: r) with (a ++ [PStep (CWrite b')] ++ r) in *.
-    rewrite app_assoc in *. apply no_pcrash_app in Hc1 as [Hca Hcr].
-    apply Hfresh. rewrite prun_app. apply prun_seen_mono; [exact Hcr | rewrite <- prun_app; exact Hok|].
-    pose proof (prun_ok_prefix _ _ _ _ Hok) as Hoka. rewrite prun_snoc in *.
-    destruct (pstep_inv _ _ _ Hoka eq_refl) as (_ & _ & Es & _). rewrite Es, E. left. reflexivity.
+  - intros Hx. apply Hfresh. right. apply prun_lab_mono; assumption.
   - intros a r -> Hx.
     change (a ++ PStart :: r) with (a ++ [PStart] ++ r) in *.
     rewrite app_assoc in *. apply no_pcrash_app in Hc1 as [Hca Hcr].
-    apply Hfresh. rewrite prun_app. apply prun_seen_mono; [exact Hcr | rewrite <- prun_app; exact Hok|].
+    apply Hfresh. right. rewrite prun_app. apply prun_lab_mono; [exact Hcr | rewrite <- prun_app; exact Hok|].
     pose proof (prun_ok_prefix _ _ _ _ Hok) as Hoka. rewrite prun_snoc in *.
-    destruct (pstep_inv _ _ _ Hoka) as [_ Es]. rewrite Es. apply in_app_iff. left. exact Hx.
+    destruct (pstep_inv _ _ _ Hoka) as (_ & Es & _). rewrite Es. apply in_app_iff. left. exact Hx.
+  - intros a b' r -> Hs E.
+    change (a ++ PStep (CWrite b') :: r) with (a ++ [PStep (CWrite b')] ++ r) in *.
+    rewrite app_assoc in *. apply no_pcrash_app in Hc1 as [Hca Hcr].
+    apply Hfresh. left. rewrite prun_app. apply prun_routs_mono; [exact Hcr | exact Hs | rewrite <- prun_app; exact Hok|].
+    pose proof (prun_ok_prefix _ _ _ _ Hok) as Hoka. rewrite prun_snoc in *.
+    destruct (pstep_inv _ _ _ Hoka eq_refl) as (_ & _ & _ & Es & _). rewrite Es, E. left. reflexivity.
 Qed.
 
-(** the output ids of a lifetime, in order *)
+(** the output ids of a history, in order *)
 Fixpoint outs (ls : list plabel) : list N :=
   match ls with
   | [] => []
@@ -634,13 +646,13 @@ Fixpoint outs (ls : list plabel) : list N :=
   | _ :: r => outs r
   end.
 
-Lemma outs_in ls x : In x (outs ls) -> exists b, In (PStep (CWrite b)) ls /\ b_out b = x.
+Lemma outs_in ls x : In x (outs ls) -> exists a b r, ls = a ++ PStep (CWrite b) :: r /\ b_out b = x.
 Proof.
   induction ls as [|l r IH]; cbn [outs]; [intros []|].
-  destruct l as [|c]; [intros H; destruct (IH H) as (b & Hb & E); exists b; split; [right|]; assumption|].
-  destruct c; try (intros H; destruct (IH H) as (b' & Hb & E); exists b'; split; [right|]; assumption).
-  intros [<-|H]; [exists b; split; [left|]; reflexivity|].
-  destruct (IH H) as (b' & Hb & E). exists b'. split; [right|]; assumption.
+  assert (G : In x (outs r) -> exists a b r0, l :: r = a ++ PStep (CWrite b) :: r0 /\ b_out b = x).
+  { intros H. destruct (IH H) as (a & b & r0 & -> & E). exists (l :: a), b, r0. split; [reflexivity | exact E]. }
+  destruct l as [|c]; [exact G|]. destruct c; try exact G.
+  intros [<-|H]; [exists [], b, r; split; reflexivity | exact (G H)].
 Qed.
 
 Lemma outs_app a b : outs (a ++ b) = outs a ++ outs b.
@@ -649,20 +661,23 @@ Proof.
   destruct c; cbn [app]; rewrite IH; reflexivity.
 Qed.
 
-Theorem outs_nodup : forall k p ls,
-  no_pcrash ls -> p_ok (prun k p ls) = true -> NoDup (outs ls).
+(** inside one planning round the output ids are pairwise distinct *)
+Theorem round_outs_nodup : forall k p ls,
+  no_pcrash ls -> no_pstart ls -> p_ok (prun k p ls) = true -> NoDup (outs ls).
 Proof.
-  intros k p ls. induction ls as [|l ls IH] using rev_ind; intros Hc Hok; [constructor|].
-  apply no_pcrash_app in Hc as Hc'. destruct Hc' as [Hc1 _].
-  pose proof (prun_ok_prefix _ _ _ _ Hok) as Hok1. specialize (IH Hc1 Hok1).
+  intros k p ls. induction ls as [|l ls IH] using rev_ind; intros Hc Hs Hok; [constructor|].
+  apply no_pcrash_app in Hc as Hc'. destruct Hc' as [Hc1 _]. apply no_pstart_app in Hs as Hs'. destruct Hs' as [Hs1 _].
+  pose proof (prun_ok_prefix _ _ _ _ Hok) as Hok1. specialize (IH Hc1 Hs1 Hok1).
   rewrite outs_app. destruct l as [|c]; [cbn [outs]; rewrite app_nil_r; exact IH|].
   destruct c; cbn [outs]; rewrite ?app_nil_r; try exact IH.
   apply nodup_app. split; [exact IH|]. split; [repeat constructor; intros []|].
-  intros x Hx [<-|[]]. apply outs_in in Hx as (b' & Hb' & E).
-  destruct (ids_fresh_in_lifetime k p _ Hc Hok ls b [] eq_refl) as (_ & H & _). exact (H b' Hb' E).
+  intros x Hx [<-|[]]. apply outs_in in Hx as (a & b' & r & -> & E).
+  destruct (ids_fresh_in_lifetime k p _ Hc Hok _ b [] eq_refl) as (_ & _ & H).
+  apply no_pstart_app in Hs1 as [_ Hr]. unfold no_pstart in Hr. cbn [In] in Hr.
+  refine (H a b' r eq_refl _ E). intros Hin. apply Hr. right. exact Hin.
 Qed.
 
-(** ** a directory name is created at most once in a lifetime *)
+(** ** a published name is not created again in the lifetime *)
 
 Lemma fw_shape s l :
   (dirs (fw_step s l) = dirs s /\ alloc0 (fw_step s l) = alloc0 s /\
@@ -716,63 +731,47 @@ Proof.
     apply in_app_iff. right. left. reflexivity.
 Qed.
 
-(** [E] over-approximates the names that have had a directory in this lifetime *)
-Record LI (s : shard) (seen : list N) (E : N -> Prop) : Prop := {
+(** [E] over-approximates the names that have had a directory in this lifetime;
+    the level-0 names among them are below the level-0 allocator, and a queued
+    flush job whose name is among them still has its directory *)
+Record LI (s : shard) (E : N -> Prop) : Prop := {
   li_ci : CI s;
   li_dir : forall i, has_dir (dirs s) i -> E i;
-  li_hi : forall i, E i -> level_span <= i -> In i seen;
   li_lo : forall i, E i -> i < level_span -> i < alloc0 s;
   li_job : forall j, In j (jobs s) -> E (jseg j) -> has_dir (dirs s) (jseg j) }.
 
-Lemma li_step k p l (E E' : N -> Prop) :
-  LI (p_s p) (p_seen p) E -> (forall c, l = PStep c -> is_crash_c c = false) ->
-  p_ok (pstep k p l) = true ->
-  (forall i, E' i <-> E i \/ has_dir (dirs (p_s (pstep k p l))) i) ->
-  LI (p_s (pstep k p l)) (p_seen (pstep k p l)) E' /\
-  (forall i, ~ has_dir (dirs (p_s p)) i -> has_dir (dirs (p_s (pstep k p l))) i -> ~ E i).
+Lemma li_step s c (E E' : N -> Prop) :
+  LI s E -> cstep_ok s c = true ->
+  (forall i, E' i <-> E i \/ has_dir (dirs (cstep s c)) i) ->
+  LI (cstep s c) E' /\
+  (forall i, i < level_span -> ~ has_dir (dirs s) i -> has_dir (dirs (cstep s c)) i -> ~ E i).
 Proof.
-  intros L Hc Hok HE. pose proof (pstep_inv k p l Hok) as I. destruct L as [Lci Ldir Lhi Llo Ljob].
-  set (s := p_s p) in *. set (seen := p_seen p) in *.
-  destruct l as [|c].
-  { destruct I as [Es Eseen]. rewrite Es, Eseen in *. fold s in HE.
-    assert (HE2 : forall i, E' i <-> E i) by (intros i; rewrite HE; split; [intros [H|H]; auto | auto]).
-    split; [|intros i H1 H2; contradiction].
-    split; auto.
-    - intros i Hi. apply HE2, Ldir, Hi.
-    - intros i Hi Hl. apply in_app_iff. right. apply Lhi; [apply HE2, Hi | exact Hl].
-    - intros i Hi. apply Llo, HE2, Hi.
-    - intros j Hj Hi. apply Ljob; [exact Hj | apply HE2, Hi]. }
-  destruct (I (Hc c eq_refl)) as (Es & G & Hseen). clear I. rewrite Es in *. fold s in G.
+  intros L G HE. destruct L as [Lci Ldir Llo Ljob].
   pose proof (ci_cstep s c Lci G) as Lci'.
   destruct c as [x|b|b|b dr|dr]; cbn [cstep cstep_ok] in *.
   - (* base label *)
-    rewrite Hseen. apply andb_true_iff in G as [G1 G2]. apply negb_true_iff in G1. apply N.leb_le in G2.
+    apply andb_true_iff in G as [G1 G2]. apply negb_true_iff in G1. apply N.leb_le in G2.
     destruct (step_shape s x G1) as [(Ed & Ea & Ej)|(j & rest & r & Hj & Ed & Ejb & Ea)].
     + rewrite Ed in HE.
       assert (HE2 : forall i, E' i <-> E i) by (intros i; rewrite HE; split; [intros [H|H]; auto | auto]).
-      split; [|rewrite Ed; intros i H1 H2; contradiction].
+      split; [|rewrite Ed; intros i _ H1 H2; contradiction].
       split; auto.
       * rewrite Ed. intros i Hi. apply HE2, Ldir, Hi.
-      * intros i Hi Hl. apply Lhi; [apply HE2, Hi | exact Hl].
       * intros i Hi Hl. apply HE2 in Hi. specialize (Llo i Hi Hl). lia.
       * rewrite Ed. intros j Hj Hi. apply HE2 in Hi. destruct (Ej j Hj) as [Hin|[E1 E2]].
         -- apply in_map_iff in Hin as (j0 & E0 & Hj0). rewrite <- E0 in *. apply Ljob; assumption.
         -- exfalso. rewrite E1 in Hi. assert (alloc0 s < level_span) by lia. specialize (Llo _ Hi H). lia.
     + rewrite Ed in HE. rewrite Ed.
       assert (Hseg : jseg j < alloc0 s) by (apply (c_jlt _ _ _ _ _ Lci); rewrite Hj; left; reflexivity).
-      pose proof (c_al _ _ _ _ _ Lci) as Hal.
       split.
       * split; auto; rewrite ?Ed, ?Ejb, ?Ea.
         -- intros i Hi. apply HE. right. exact Hi.
-        -- intros i Hi Hl. apply HE in Hi as [Hi|Hi]; [apply Lhi; assumption|].
-           apply has_dir_add_iff in Hi as [Hi| ->]; [apply Lhi; [apply Ldir, Hi | exact Hl] | lia].
         -- intros i Hi Hl. apply HE in Hi as [Hi|Hi]; [apply Llo; assumption|].
            apply has_dir_add_iff in Hi as [Hi| ->]; [apply Llo; [apply Ldir, Hi | exact Hl] | exact Hseg].
         -- intros j0 Hj0 Hi. apply HE in Hi as [Hi|Hi]; [apply has_dir_add, Ljob; assumption | exact Hi].
-      * intros i Hn Hi. apply has_dir_add_iff in Hi as [Hi| ->]; [contradiction|].
+      * intros i _ Hn Hi. apply has_dir_add_iff in Hi as [Hi| ->]; [contradiction|].
         intros HEi. apply Hn, Ljob; [rewrite Hj; left; reflexivity | exact HEi].
   - (* CWrite *)
-    destruct Hseen as (Eseen & Hfresh & _). rewrite Eseen.
     apply andb_true_iff in G as [G1 G2]. apply N.leb_le in G1. apply negb_true_iff in G2.
     rewrite has_dirb_false in G2. unfold cp_write in *. cbn [dirs jobs alloc0] in *.
     assert (Hd : forall i, has_dir (filter (fun d => negb (sid d =? b_out b)) (dirs s) ++
@@ -788,40 +787,35 @@ Proof.
     split.
     + split; auto.
       * intros i Hi. apply HE. right. exact Hi.
-      * intros i Hi Hl. apply HE in Hi as [Hi|Hi]; [right; apply Lhi; assumption|].
-        apply Hd in Hi as [Hi| ->]; [right; apply Lhi; [apply Ldir, Hi | exact Hl] | left; reflexivity].
       * intros i Hi Hl. apply HE in Hi as [Hi|Hi]; [apply Llo; assumption|].
         apply Hd in Hi as [Hi| ->]; [apply Llo; [apply Ldir, Hi | exact Hl] | lia].
       * intros j Hj Hi. apply Hd. apply HE in Hi as [Hi|Hi]; [left; apply Ljob; assumption|]. apply Hd, Hi.
-    + intros i Hn Hi. apply Hd in Hi as [Hi| ->]; [contradiction|]. intros HEi. apply Hfresh, Lhi; assumption.
+    + intros i Hl Hn Hi. apply Hd in Hi as [Hi| ->]; [contradiction | lia].
   - (* CIndex *)
-    rewrite Hseen. unfold cp_index in *. cbn [dirs jobs alloc0] in *.
+    unfold cp_index in *. cbn [dirs jobs alloc0] in *.
     assert (HE2 : forall i, E' i <-> E i) by (intros i; rewrite HE; split; [intros [H|H]; auto | auto]).
-    split; [|intros i H1 H2; contradiction].
+    split; [|intros i _ H1 H2; contradiction].
     split; auto.
     + intros i Hi. apply HE2, Ldir, Hi.
-    + intros i Hi Hl. apply Lhi; [apply HE2, Hi | exact Hl].
     + intros i Hi. apply Llo, HE2, Hi.
     + intros j Hj Hi. apply Ljob; [exact Hj | apply HE2, Hi].
   - (* CLive *)
-    rewrite Hseen. unfold cp_live in *. cbn [dirs jobs alloc0] in *.
+    unfold cp_live in *. cbn [dirs jobs alloc0] in *.
     assert (HE2 : forall i, E' i <-> E i) by (intros i; rewrite HE; split; [intros [H|H]; auto | auto]).
-    split; [|intros i H1 H2; contradiction].
+    split; [|intros i _ H1 H2; contradiction].
     split; auto.
     + intros i Hi. apply HE2, Ldir, Hi.
-    + intros i Hi Hl. apply Lhi; [apply HE2, Hi | exact Hl].
     + intros i Hi. apply Llo, HE2, Hi.
     + intros j Hj Hi. apply Ljob; [exact Hj | apply HE2, Hi].
   - (* CReclaim *)
-    rewrite Hseen. unfold cp_reclaim in *. cbn [dirs jobs alloc0] in *. rewrite forallb_forall in G.
+    unfold cp_reclaim in *. cbn [dirs jobs alloc0] in *. rewrite forallb_forall in G.
     assert (Hsub : forall i, has_dir (filter (fun d => negb (memb (sid d) dr)) (dirs s)) i -> has_dir (dirs s) i).
     { intros i (d & Hd & E0). apply filter_In in Hd as [Hd _]. exists d. auto. }
     assert (HE2 : forall i, E' i <-> E i).
     { intros i. rewrite HE. split; [intros [H|H]; [exact H | apply Ldir, Hsub, H] | auto]. }
-    split; [|intros i H1 H2; exfalso; apply H1, Hsub, H2].
+    split; [|intros i _ H1 H2; exfalso; apply H1, Hsub, H2].
     split; auto.
     + intros i Hi. apply HE2, Ldir, Hsub, Hi.
-    + intros i Hi Hl. apply Lhi; [apply HE2, Hi | exact Hl].
     + intros i Hi. apply Llo, HE2, Hi.
     + intros j Hj Hi. apply HE2 in Hi. destruct (Ljob j Hj Hi) as (d & Hd & E0). exists d. split; [|exact E0].
       apply filter_In. split; [exact Hd|]. apply negb_true_iff, memb_false. intros Hdr. apply G in Hdr.
@@ -852,7 +846,7 @@ Qed.
 
 Lemma li_run k c ls :
   no_pcrash ls -> p_ok (prun k (pinit c) ls) = true ->
-  LI (p_s (prun k (pinit c) ls)) (p_seen (prun k (pinit c) ls)) (Ever k (pinit c) ls).
+  LI (p_s (prun k (pinit c) ls)) (Ever k (pinit c) ls).
 Proof.
   induction ls as [|l ls IH] using rev_ind; intros Hc Hok.
   - assert (Hnone : forall i, ~ Ever k (pinit c) [] i).
@@ -861,35 +855,59 @@ Proof.
     + apply ci_init.
     + intros i (d & Hd & _). destruct Hd.
     + intros i Hi. destruct (Hnone i Hi).
-    + intros i Hi. destruct (Hnone i Hi).
     + intros j Hj. destruct Hj.
   - apply no_pcrash_app in Hc as [Hc1 Hc2]. rewrite prun_snoc in *.
-    specialize (IH Hc1 (pstep_ok _ _ _ Hok)).
-    refine (proj1 (li_step k _ l _ _ IH _ Hok _)).
-    + intros c0 ->. apply Hc2. left. reflexivity.
-    + intros i. rewrite ever_snoc, prun_snoc. reflexivity.
+    specialize (IH Hc1 (pstep_ok _ _ _ Hok)). pose proof (pstep_inv _ _ _ Hok) as I.
+    destruct l as [|c0].
+    + destruct I as (Es & _). destruct IH as [A B C D]. rewrite Es. split; auto.
+      * intros i Hi. apply ever_snoc. left. apply B, Hi.
+      * intros i Hi. apply ever_snoc in Hi as [Hi|Hi]; [apply C, Hi|]. rewrite prun_snoc, Es in Hi. apply C, B, Hi.
+      * intros j Hj Hi. apply ever_snoc in Hi as [Hi|Hi]; [apply D; assumption|]. rewrite prun_snoc, Es in Hi. exact Hi.
+    + destruct (I (Hc2 c0 (or_introl eq_refl))) as (Es & G & _). rewrite Es.
+      refine (proj1 (li_step _ c0 _ _ IH G _)).
+      intros i. rewrite ever_snoc, prun_snoc, Es. reflexivity.
 Qed.
 
-(** A directory that a step of the lifetime creates has a name that no directory
-    had at any earlier state of the lifetime: a name published once is never
-    created again before the next restart. *)
+(** A directory that a step of the first lifetime creates:
+    - on level 0 (a flush directory) its name had no directory at ANY earlier state
+      of the lifetime;
+    - above level 0 it is the output of a [CWrite] and its name was not listed in the
+      index at any earlier round start of the lifetime.
+    A name published once (listed in the index when some planning round started)
+    is therefore never created again before the next restart. *)
 Theorem name_never_recreated : forall k c ls,
   no_pcrash ls -> p_ok (prun k (pinit c) ls) = true ->
   forall l1 l l2 i, ls = l1 ++ l :: l2 ->
     ~ has_dir (dirs (p_s (prun k (pinit c) l1))) i ->
     has_dir (dirs (p_s (prun k (pinit c) (l1 ++ [l])))) i ->
-    forall n, ~ has_dir (dirs (p_s (prun k (pinit c) (firstn n l1)))) i.
+    (i < level_span -> forall n, ~ has_dir (dirs (p_s (prun k (pinit c) (firstn n l1)))) i) /\
+    (level_span <= i ->
+       (exists b, l = PStep (CWrite b) /\ b_out b = i) /\
+       forall a r, l1 = a ++ PStart :: r -> ~ In i (index_labels (index (p_s (prun k (pinit c) a))))).
 Proof.
-  intros k c ls Hc Hok l1 l l2 i -> Hn Hd n Hbefore.
-  change (l1 ++ l :: l2) with (l1 ++ [l] ++ l2) in *. rewrite app_assoc in *.
+  intros k c ls Hc Hok l1 l l2 i Els Hn Hd. subst ls.
+  pose proof Hc as Hc0. pose proof Hok as Hok0.
+  change (l1 ++ l :: l2) with (l1 ++ [l] ++ l2) in Hc, Hok. rewrite app_assoc in Hc, Hok.
   apply prun_ok_prefix in Hok. apply no_pcrash_app in Hc as [Hc _].
   apply no_pcrash_app in Hc as Hc'. destruct Hc' as [Hc1 Hc2].
   pose proof (li_run k c l1 Hc1 (prun_ok_prefix _ _ _ _ Hok)) as L.
-  rewrite prun_snoc in *.
-  assert (Hl : forall c0, l = PStep c0 -> is_crash_c c0 = false) by (intros c0 ->; apply Hc2; left; reflexivity).
-  destruct (li_step k _ l _ (fun i => Ever k (pinit c) l1 i \/ has_dir (dirs (p_s (pstep k (prun k (pinit c) l1) l))) i)
-              L Hl Hok (fun i => conj (fun H => H) (fun H => H))) as [_ Hfresh].
-  apply (Hfresh i Hn Hd). exists n. exact Hbefore.
+  rewrite prun_snoc in *. pose proof (pstep_inv _ _ _ Hok) as I.
+  destruct l as [|c0].
+  { destruct I as (Es & _). rewrite Es in Hd. contradiction. }
+  destruct (I (Hc2 c0 (or_introl eq_refl))) as (Es & G & _). rewrite Es in Hd.
+  split.
+  - intros Hlo n Hbefore.
+    destruct (li_step _ c0 _ (fun i => Ever k (pinit c) l1 i \/ has_dir (dirs (cstep (p_s (prun k (pinit c) l1)) c0)) i)
+                L G (fun i => conj (fun H => H) (fun H => H))) as [_ Hfresh].
+    apply (Hfresh i Hlo Hn Hd). exists n. exact Hbefore.
+  - intros Hhi.
+    destruct (dir_created_fresh _ c0 i (li_ci _ _ L) G Hn Hd) as [(b & -> & Eb & _)|(j & rest & Hj & Ej & _)].
+    + split; [exists b; split; [reflexivity | exact Eb]|]. intros a r Ea.
+      destruct (ids_fresh_in_lifetime k (pinit c) _ Hc0 Hok0 l1 b l2 eq_refl) as (_ & H & _).
+      rewrite <- Eb. exact (H a r Ea).
+    + exfalso. pose proof (li_ci _ _ L) as Ci.
+      assert (jseg j < alloc0 (p_s (prun k (pinit c) l1))) by (apply (c_jlt _ _ _ _ _ Ci); rewrite Hj; left; reflexivity).
+      pose proof (c_al _ _ _ _ _ Ci). lia.
 Qed.
 
 (** * Known findings and non-vacuity *)
@@ -922,7 +940,7 @@ Definition seg1 (n : N) : list clabel := map CBase ([LStore (mkEv n 0 0)] ++ flu
     4, 5; round 3: an allocator seeded from the index labels {20000, 4, 5} alone would
     hand out 10000 again for [4;5].  The history up to the start of round 3
     satisfies every guard; [rb4] still satisfies [batch_ok] (a lower bound) but is
-    rejected by [batch_ok_fresh], because [p_seen] holds 10000 from the first two
+    rejected by [batch_ok_fresh], because [p_lab] holds 10000 from the first two
     round starts; the id the repaired allocator hands out, 10002, is accepted. *)
 Definition rb1 : batch := mkBatch 10000 [0; 1] [0].
 Definition rb2 : batch := mkBatch 10001 [2; 3] [0].
@@ -950,10 +968,10 @@ Example label_reuse_rejected_example :
   let p := prun 2 (pinit 1) reuse_p in
   hist_ok (init 1) (reuse1 ++ reuse2 ++ reuse3) = true /\ policy_ok 2 (init 1) (reuse1 ++ reuse2 ++ reuse3) = true /\
   no_pcrash reuse_p /\ p_ok p = true /\
-  p_rix p = [(20000, [0]); (4, [0]); (5, [0])] /\ In 10000 (p_seen p) /\
-  batch_ok (p_rix p) 2 rb4 = true /\ batch_ok_fresh (p_seen p) (p_rix p) 2 rb4 = false /\
+  p_rix p = [(20000, [0]); (4, [0]); (5, [0])] /\ In 10000 (p_lab p) /\
+  batch_ok (p_rix p) 2 rb4 = true /\ batch_ok_fresh (p_routs p ++ p_lab p) (p_rix p) 2 rb4 = false /\
   p_ok (prun 2 (pinit 1) (reuse_p ++ lift (whole rb4 [4; 5]))) = false /\
-  batch_ok_fresh (p_seen p) (p_rix p) 2 rb4' = true /\
+  batch_ok_fresh (p_routs p ++ p_lab p) (p_rix p) 2 rb4' = true /\
   p_ok (prun 2 (pinit 1) (reuse_p ++ lift (whole rb4' [4; 5]))) = true.
 Proof.
   cbv zeta. split; [vm_compute; reflexivity|]. split; [vm_compute; reflexivity|].
@@ -962,7 +980,7 @@ Proof.
   vm_conj.
 Qed.
 
-(** Across a restart the bookkeeping is gone ([p_seen] is reset, as the engine's set
+(** Across a restart the bookkeeping is gone ([p_lab] is reset, as the engine's set
     of remembered labels lives in process memory) and a retired output id IS handed
     out again.  Capacity 1, k = 4, one type.  Lifetime A: segments 0..8; round 1:
     [0;1;2;3] -> 10000, [4;5;6;7] -> 10001 (8 is left over); round 2: [10000;10001]
@@ -991,8 +1009,8 @@ Lemma label_reuse_across_restart_refuted :
     let p4 := prun k (pinit c) (lA1 ++ lA2 ++ restart ++ lB) in
     no_pcrash (lA1 ++ lA2) /\ no_pcrash lB /\ p_ok p4 = true /\
     In i (live (p_s p1)) /\ rows_of (dirs (p_s p1)) i = [mkEv 0 0 0; mkEv 1 0 0; mkEv 2 0 0; mkEv 3 0 0] /\
-    ~ In i (live (p_s p2)) /\ ~ has_dir (dirs (p_s p2)) i /\ In i (p_seen p2) /\
-    p_seen p3 = [] /\ alloc0 (p_s p3) = 9 /\
+    ~ In i (live (p_s p2)) /\ ~ has_dir (dirs (p_s p2)) i /\ In i (p_lab p2) /\
+    p_lab p3 = [] /\ alloc0 (p_s p3) = 9 /\
     In (PStep (CWrite (mkBatch i [8; 9; 10; 11] [0]))) lB /\
     In i (live (p_s p4)) /\ rows_of (dirs (p_s p4)) i = [mkEv 8 0 0; mkEv 9 0 0; mkEv 10 0 0; mkEv 11 0 0].
 Proof.
@@ -1006,6 +1024,29 @@ Proof.
   split; [vm_compute; reflexivity|]. split; [vm_compute; reflexivity|].
   split; [unfold lifeB, lift, whole; rewrite !in_app_iff; right; right; left; reflexivity|].
   split; [apply memb_true_in; vm_compute; reflexivity|]. vm_compute; reflexivity.
+Qed.
+
+(** What the repair does not cover inside a lifetime: an output id whose batch did
+    not reach its index entry (index save failed, no crash) is not remembered.
+    Capacity 1, k = 3: [0;1] -> 10000 is written but not indexed; segment 2; the
+    next round plans [0;1;2] -> 10000 again: [batch_ok_fresh] accepts it, the guard
+    of [CWrite] (no directory of that name) does not - the leftover, never
+    published directory is overwritten.  (Observed on the engine with an injected
+    index-save failure.) *)
+Definition failed_p : list plabel :=
+  lift (seg1 0 ++ seg1 1) ++ [PStart; PStep (CWrite (mkBatch 10000 [0; 1] [0]))] ++ lift (seg1 2) ++ [PStart].
+
+Example failed_batch_id_retaken_example :
+  let p := prun 3 (pinit 1) failed_p in
+  let b := mkBatch 10000 [0; 1; 2] [0] in
+  no_pcrash failed_p /\ p_ok p = true /\ index (p_s p) = [(0, [0]); (1, [0]); (2, [0])] /\
+  batch_ok_fresh (p_routs p ++ p_lab p) (p_rix p) 3 b = true /\
+  has_dirb (dirs (p_s p)) 10000 = true /\ cstep_ok (p_s p) (CWrite b) = false /\
+  ~ In 10000 (live (p_s p)) /\ outs (failed_p ++ [PStep (CWrite b)]) = [10000; 10000].
+Proof.
+  cbv zeta. split; [apply no_pcrash_b; vm_compute; reflexivity|].
+  do 5 (split; [vm_compute; reflexivity|]).
+  split; [apply memb_false_notin; vm_compute; reflexivity|]. vm_compute; reflexivity.
 Qed.
 
 (** Non-vacuity of the lifetime theorems: the C05 example history with its two
